@@ -28,9 +28,11 @@ def dl(xs):
     return clist([cD(float(x)) for x in xs])
 
 
-def inside_case(vd, region, east, north, kind):
+def inside_case(vd, region, east, north, kind, rnd=None):
     east = np.asarray(east, dtype=float)
     north = np.asarray(north, dtype=float)
+    if rnd is not None:   # memory layout must not matter
+        east, north = core.relayout(east, rnd), core.relayout(north, rnd)
     try:
         out = vd.inside((east, north), region)
         ok = out.shape == east.shape and out.dtype == bool
@@ -45,9 +47,11 @@ def inside_case(vd, region, east, north, kind):
                 nontrivial=obs != "ValueError" and east.size > 0)
 
 
-def get_region_case(vd, east, north, kind):
+def get_region_case(vd, east, north, kind, rnd=None):
     east = np.asarray(east, dtype=float)
     north = np.asarray(north, dtype=float)
+    if rnd is not None:
+        east, north = core.relayout(east, rnd), core.relayout(north, rnd)
     reg = vd.get_region((east, north))
     ins = bool(np.all(vd.inside((east, north), reg)))
     term = "c13_get_region %s %s (%s, %s, %s, %s) %s" % (dl(east.ravel()), dl(north.ravel()), cD(reg[0]), cD(reg[1]), cD(reg[2]), cD(reg[3]), cbool(ins))
@@ -157,8 +161,11 @@ def generate(tier, seed):
         if i % 3 == 0 and m % 2 == 0:
             ex = np.array(ex).reshape(2, m // 2)
             ny = np.array(ny).reshape(2, m // 2)
-        cases.append(core.guarded(lambda: inside_case(vd, (w, e, s, n), ex, ny, "inside"), {"fn": "inside_case"}, "inside_case"))
-        cases.append(core.guarded(lambda: get_region_case(vd, ex, ny, "get_region"), {"fn": "get_region_case"}, "get_region_case"))
+        elif i % 3 == 1 and m % 3 == 0:
+            ex = np.array(ex).reshape(m // 3, 3)
+            ny = np.array(ny).reshape(m // 3, 3)
+        cases.append(core.guarded(lambda: inside_case(vd, (w, e, s, n), ex, ny, "inside", rnd), {"fn": "inside_case"}, "inside_case"))
+        cases.append(core.guarded(lambda: get_region_case(vd, ex, ny, "get_region", rnd), {"fn": "get_region_case"}, "get_region_case"))
     # corners exactly
     cases.append(core.guarded(lambda: inside_case(vd, (0.0, 1.0, 2.0, 3.0), [0, 1, 0, 1, 0.5, -1e-300, 1 + 2 ** -52], [2, 2, 3, 3, 2.5, 2, 3], "inside-corners"), {"fn": "inside_case"}, "inside_case"))
     # pads
